@@ -22,7 +22,7 @@ ASSUMPTIONS = ['rounding scaled by conditioning = C*(eps*m*max_j|w_kj| + D_k) pe
                'exact weights derived from the definition of the Lagrange basis in Fraction arithmetic']
 C_ROW = 2048.0
 C_POLY = 64.0
-KINDS = ['uniform', 'random', 'clustered', 'permuted', 'onesided', 'geometric', 'integer', 'offset']
+KINDS = ['uniform', 'random', 'clustered', 'permuted', 'onesided', 'geometric', 'integer', 'offset', 'pyint_big']
 
 
 def setup(ctx, mon):
@@ -49,6 +49,12 @@ def make_nodes(rng, kind, m):
             x = x[::-1].copy()
     elif kind == 'integer':
         x = rng.permutation(np.arange(-m, m + 1))[:m].astype(float)
+    elif kind == 'pyint_big':
+        # integer nodes with a large spacing (handed over as Python ints: products of node differences exceed 2**63)
+        step = int(rng.choice([50, 100, 1000, 10 ** 4, 10 ** 6]))
+        x = (int(rng.integers(-5, 6)) * step + step * np.arange(m) * int(rng.integers(1, 4))).astype(float)
+        if rng.random() < 0.4:
+            x = rng.permutation(x)
     else:  # offset: well separated nodes far from the origin
         x = 1000.0 + np.sort(rng.uniform(-1, 1, m))
     x = np.asarray(x, dtype=float)
@@ -92,13 +98,26 @@ def run_case(case, ctx):
     x0, n = case['x0'], case['n']
     m = len(x)
     xin = list(case['x']) if case['as_list'] else x.copy()
+    if case['kind'] == 'pyint_big':
+        form = ['list', 'tuple', 'range'][case['pseed'] % 3]
+        ints = [int(v) for v in case['x']]
+        d = ints[1] - ints[0] if m > 1 else 1
+        regular = m > 1 and d != 0 and all(b - a == d for a, b in zip(ints[:-1], ints[1:]))
+        xin = range(ints[0], ints[-1] + (1 if d > 0 else -1), d) if (form == 'range' and regular) else tuple(ints) if form == 'tuple' else ints
+        if float(x0).is_integer() and case['pseed'] % 2:
+            x0 = int(x0)
+        ctx.count('python_int_nodes_cases')
     try:
+        if case['pseed'] % 2 and n < m - 1:
+            # history: the full table for the same stencil has been asked for before (a higher order first)
+            ctx.count('stencil_seen_before_with_higher_order')
+            fd_weights_all(xin, x0, m - 1)
         W = fd_weights_all(xin, x0, n)
         w_n = fd_weights(xin, x0, n)
     except Exception as exc:
         ctx.reject('raised', observed=repr(exc))
         return
-    if not case['as_list'] and xin.tobytes() != x.tobytes():
+    if isinstance(xin, np.ndarray) and xin.tobytes() != x.tobytes():
         ctx.reject('input_modified')
         return
     W = np.asarray(W)
